@@ -73,6 +73,14 @@ def main() -> int:
     for f in ("patch.diff", "demo.py"):
         shutil.copy(work / f, dest / f)
     meta = json.loads((work / "meta.json").read_text())
+    if (dest / "meta.json").exists():  # keep the history of earlier confirmations
+        prev = json.loads((dest / "meta.json").read_text())
+        for k in ("first_run", "widening"):
+            if k in prev:
+                meta[k] = prev[k]
+        if "first_run" not in meta and "confirmation" in prev:
+            meta["first_run"] = "CAUGHT" if prev["confirmation"].get("caught") else "MISSED"
+    meta.setdefault("first_run", "CAUGHT" if report["caught"] else "MISSED")
     meta["confirmation"] = report
     (dest / "meta.json").write_text(json.dumps(meta, indent=1))
     ok = report.get("demo_unpatched_rc") == 0 and report.get("demo_patched_rc") not in (0, None)
